@@ -11,12 +11,17 @@ import Acme.Driver.CanId
 import Acme.Driver.BusLoad
 import Acme.Driver.Arith
 import Acme.Driver.Payload
+import Acme.Driver.Mux
+import Acme.Driver.Graph
+import Acme.Driver.Dbc
 
 open Acme.Driver
 
 structure DState where
   avl : AvlD.St := AvlD.init
   pl : PayloadD.St := {}
+  mx : MuxD.St := {}
+  gr : GraphD.St := {}
 
 def stepLine (s : DState) (line : String) : DState × String :=
   let toks := (line.splitOn " ").filter (· ≠ "")
@@ -27,6 +32,9 @@ def stepLine (s : DState) (line : String) : DState × String :=
   | "busload" :: rest => (s, BusLoadD.handle rest)
   | "arith" :: rest => (s, ArithD.handle rest)
   | "pl" :: rest => let (a, o) := PayloadD.handle s.pl rest; ({ s with pl := a }, o)
+  | "mx" :: rest => let (a, o) := MuxD.handle s.mx rest; ({ s with mx := a }, o)
+  | "gr" :: rest => let (a, o) := GraphD.handle s.gr rest; ({ s with gr := a }, o)
+  | "dbc" :: rest => (s, DbcD.handle rest)
   | _ => (s, "bad-op")
 
 partial def loop (hin : IO.FS.Stream) (hout : IO.FS.Stream) (s : DState) : IO Unit := do
